@@ -47,6 +47,8 @@ type NtfnsHandler struct {
 	// suspended is true while handle() is parked between suspend() and resume();
 	// only the worker goroutine touches it
 	suspended bool
+	// workerReady is closed by worker() once the task queue exists and is filled
+	workerReady chan struct{}
 }
 
 // NewNtfnsHandler ...
@@ -151,8 +153,12 @@ func (h *NtfnsHandler) Start() error {
 	}
 
 	h.quitWg.Add(2)
+	h.workerReady = make(chan struct{})
 	go handle(h)
 	go worker(h)
+	// API calls (IsWorkerBusy, OnImportWallet, OnRemoveWallet) use h.taskChan, which
+	// worker() creates: do not return before it exists
+	<-h.workerReady
 	return nil
 }
 
@@ -791,6 +797,7 @@ func worker(h *NtfnsHandler) {
 		}
 		return nil
 	})
+	close(h.workerReady)
 
 	for {
 		select {
